@@ -46,6 +46,8 @@ Inductive rt_event :=
                                                               mid: the peer's id space) from sess *)
 | RtDisconnect (sess reason : Z)                           (* coap_session_disconnected(sess, reason),
                                                               reason not ICMP_ISSUE *)
+| RtDelete (sess mid : Z)                                  (* coap_delete_node() on the queued node of
+                                                              that session with that mid *)
 | RtIoProcess (tmo : Z)                                    (* coap_io_process(ctx, tmo) with nothing to
                                                               read: prepare, epoll_wait, prepare *)
 | RtDump.                                                  (* observation of the queue *)
@@ -238,6 +240,16 @@ Definition rt_io_process (st : rt_state) (tmo : Z) : rt_state * list rt_out :=
   let (st3, o3) := rt_fire_all st2 in
   (st3, o1 ++ RoEpoll (rs_now st1) et :: o3 ++ [RoIoRet (rs_now st3) (rs_now st3 - rs_now st)]).
 
+(* coap_delete_node(node) for a node that is still linked into the send queue (inside the library:
+   the delayed multicast response that has just been sent, a node that was re-added while its
+   give-up was being processed): it is unlinked and its time goes to its successor (as repaired:
+   LL_DELETE alone dropped the time and every node behind became due earlier).  No handler call. *)
+Definition rt_delete (st : rt_state) (s m : Z) : rt_state * list rt_out :=
+  match sq_remove (rs_q st) s m with
+  | Some ((_, n), q') => (rt_set_q st q', [RoAcked (rs_now st) (qn_uid n)])
+  | None => (st, [])
+  end.
+
 Definition rt_step (st : rt_state) (ev : rt_event) : rt_state * list rt_out :=
   match ev with
   | RtAdvance dt => (rt_mk_state (rs_now st + dt) (rs_base st) (rs_q st) (rs_uid st), [])
@@ -247,6 +259,7 @@ Definition rt_step (st : rt_state) (ev : rt_event) : rt_state * list rt_out :=
   | RtRst s m => rt_rst st s m
   | RtNon s _ tok => rt_non st s tok
   | RtDisconnect s reason => rt_disconnect st s reason
+  | RtDelete s m => rt_delete st s m
   | RtIoProcess tmo => rt_io_process st tmo
   | RtDump => (st, [RoDump (rs_now st) (sq_abs (rs_base st) (rs_q st))])
   end.
